@@ -118,3 +118,41 @@ impl VerifSoftLock {
         self.0.verif_canon()
     }
 }
+
+// ---------------------------------------------------------------------------------------------
+// server::keys — the key id type used by the public key_internal value set
+
+pub use crate::server::keys::KeyId;
+
+// ---------------------------------------------------------------------------------------------
+// filter — resolve without the optimiser, and the two optimisers on their own
+
+use crate::be::IdxMeta;
+use crate::filter::{Filter, FilterValid, FilterValidResolved};
+
+pub fn filter_resolve_unoptimised(
+    f: &Filter<FilterValid>,
+    ev: &Identity,
+    idxmeta: Option<&IdxMeta>,
+) -> Option<Filter<FilterValidResolved>> {
+    f.verif_resolve_unoptimised(ev, idxmeta)
+}
+
+pub fn filter_optimise(f: &Filter<FilterValidResolved>) -> Filter<FilterValidResolved> {
+    f.verif_optimise()
+}
+
+pub fn filter_fast_optimise(f: &Filter<FilterValidResolved>) -> Filter<FilterValidResolved> {
+    f.verif_fast_optimise()
+}
+
+// ---------------------------------------------------------------------------------------------
+// server — consistency check on an existing read transaction, and the write txn's cid
+
+pub fn qs_read_verify(r: &mut QueryServerReadTransaction<'_>) -> Vec<Result<(), ConsistencyError>> {
+    r.verify()
+}
+
+pub fn txn_cid(w: &QueryServerWriteTransaction<'_>) -> Cid {
+    w.get_txn_cid().clone()
+}
